@@ -28,12 +28,8 @@ use std::ops::Deref;
 /// assert_eq!(domain.values(), vec![0.0, 0.5, 1.0]);
 /// ```
 pub fn linear_space(start: f64, end: f64, n: usize) -> DiscreteDomain {
-    let mut values = Vec::with_capacity(n);
-    let step = (end - start) / (n - 1) as f64;
-    for i in 0..n {
-        values.push(start + i as f64 * step);
-    }
-    DiscreteDomain { values }
+    // A discrete domain is always ascending, so the bounds are put in order first
+    DiscreteDomain::linear(start, end, n)
 }
 
 /// A discrete domain of scalar f64 values, in which all values are guaranteed to be finite and in ascending order.
@@ -64,9 +60,14 @@ impl DiscreteDomain {
     pub fn linear(start: f64, end: f64, n: usize) -> Self {
         let mut values = Vec::with_capacity(n);
         let (start, end) = (start.min(end), start.max(end));
-        let step = (end - start) / (n - 1) as f64;
-        for i in 0..n {
-            values.push(start + i as f64 * step);
+        if n == 1 {
+            // A single value has no spacing (the step would be a division by zero)
+            values.push(start);
+        } else if n > 1 {
+            let step = (end - start) / (n - 1) as f64;
+            for i in 0..n {
+                values.push(start + i as f64 * step);
+            }
         }
         DiscreteDomain { values }
     }
